@@ -20,7 +20,8 @@ VARIABLES l, dead, fs,
           nEff,     \* samples per time in effect (t_eff * fs), >= 2
           from,     \* output at the moment the input last changed
           k,        \* samples processed since the input last changed
-          quiet     \* no set_time since the input last changed
+          quiet     \* no set_time since the input last changed, and the output had settled on the
+                    \* previous input when it changed (the coverage statements are about steps from rest)
 
 tvars == <<gVars, l, dead, fs, nEff, from, k, quiet>>
 
@@ -83,7 +84,7 @@ TProcess ==
         /\ lo' = Min2(lo, v) /\ hi' = Max2(hi, v)
         /\ from' = IF held THEN from ELSE y
         /\ k' = IF held THEN k + 1 ELSE 1
-        /\ quiet' = IF held THEN quiet ELSE TRUE
+        /\ quiet' = IF held THEN quiet ELSE (Abs(x - y) <= EpsRes(y) + 16)
         /\ UNCHANGED <<cached, eff, pole, fs, nEff>>
         /\ Advance(
              IF e.yq = NaNKey THEN {"C13:nan"} ELSE
